@@ -84,21 +84,22 @@ type Enc struct {
 	// unexported field last; 3: an unexported field first, then the tagged embed. Composition by embedding
 	// (objects that hold at least one nested object): 5: the nested objects are embedded anonymously and the
 	// object has no dig.In/dig.Out of its own; 6: embedded In/Out first, nested objects embedded anonymously.
+	// 7: as 4, and the first field, when it is a dependency of a method-less struct type, is itself embedded.
 	Lay int `json:"lay,omitempty"`
 }
 
 // Fn is the spec of one harness-owned user function.
 type Fn struct {
-	ID       int     `json:"id"`
-	Params   []Param `json:"p,omitempty"`
-	Results  []Res   `json:"r,omitempty"`
-	PEnc     []Enc   `json:"pe,omitempty"` // nil: derived (object iff tags are needed)
-	REnc     []Enc   `json:"re,omitempty"`
-	HasErr   bool    `json:"e,omitempty"`  // error result (trailing unless ErrPos says otherwise)
+	ID      int     `json:"id"`
+	Params  []Param `json:"p,omitempty"`
+	Results []Res   `json:"r,omitempty"`
+	PEnc    []Enc   `json:"pe,omitempty"` // nil: derived (object iff tags are needed)
+	REnc    []Enc   `json:"re,omitempty"`
+	HasErr  bool    `json:"e,omitempty"` // error result (trailing unless ErrPos says otherwise)
 	// ErrPos (constructors and decorators with HasErr, dynamic functions only): 0: the error is the last
 	// result; 1: it is the FIRST result; 2: an error result first (it carries the fault) and another one last.
-	ErrPos int `json:"ep,omitempty"`
-	Variadic bool    `json:"va,omitempty"` // extra trailing variadic parameter (...V7)
+	ErrPos   int  `json:"ep,omitempty"`
+	Variadic bool `json:"va,omitempty"` // extra trailing variadic parameter (...V7)
 	// Faults: execution number (1-based) -> "err" | "panic". Key 0 means every execution.
 	Faults map[int]string `json:"f,omitempty"`
 	Pool   int            `json:"pool,omitempty"` // 1+index into the declared pool; 0 = dynamic
@@ -173,7 +174,7 @@ type Op struct {
 	Callback bool   `json:"cb,omitempty"`
 	// CbPanic: the callback panics (with a *InjCbPanic) the first time it fires.
 	CbPanic bool `json:"cbp,omitempty"`
-	Info     bool   `json:"info,omitempty"`
+	Info    bool `json:"info,omitempty"`
 	// Invalid: non-empty when the generator deliberately made this call violate a
 	// documented rule; the value names the cause (see invalid.go).
 	Invalid string `json:"inv,omitempty"`
